@@ -166,7 +166,8 @@ func getNodeWhitespace(nodes []TemplateFileNode, i int) string {
 
 func endsWithComment(s string) bool {
 	lineSlice := strings.Split(s, "\n")
-	return strings.HasPrefix(lineSlice[len(lineSlice)-1], "//")
+	// The code is written gofmt-ed, which moves an indented comment to the start of its line.
+	return strings.HasPrefix(strings.TrimLeft(lineSlice[len(lineSlice)-1], " \t"), "//")
 }
 
 // TemplateFileNode can be a Template, CSS, Script or Go.
